@@ -738,6 +738,50 @@ def expr_guards(tu, n, stop=None):
     return out
 
 
+def fold_env(tu, n, env):
+    """Integer value of expression n where sub-expressions whose canonical
+    text is a key of env take the given value (C integer semantics of the
+    node's own type for casts).  None if not determined."""
+    n = strip(n)
+    if n is None:
+        return None
+    t = ctext(n)
+    if t in env:
+        return env[t]
+    v = tu.fold(n)
+    if v is not None:
+        return v
+    k = kind(n)
+    ks = kids(n)
+    if k == "CStyleCastExpr":
+        v = fold_env(tu, ks[0], env)
+        return None if v is None else wrap_int(v, n.get("type", {}).get("qualType", ""))
+    if k == "UnaryOperator":
+        v = fold_env(tu, ks[0], env)
+        if v is None:
+            return None
+        return {"-": -v, "+": v, "~": ~v, "!": int(not v)}.get(n.get("opcode"))
+    if k == "BinaryOperator":
+        a, b = fold_env(tu, ks[0], env), fold_env(tu, ks[1], env)
+        if a is None or b is None:
+            return None
+        op = n.get("opcode")
+        try:
+            return {"+": a + b, "-": a - b, "*": a * b, "<<": a << b, ">>": a >> b, "&": a & b, "|": a | b,
+                    "^": a ^ b, "<": int(a < b), ">": int(a > b), "<=": int(a <= b), ">=": int(a >= b),
+                    "==": int(a == b), "!=": int(a != b), "&&": int(bool(a) and bool(b)),
+                    "||": int(bool(a) or bool(b)),
+                    "/": int(a / b) if b else None, "%": (a - b * int(a / b)) if b else None}.get(op)
+        except (ValueError, OverflowError):
+            return None
+    if k == "ConditionalOperator":
+        c = fold_env(tu, ks[0], env)
+        if c is None:
+            return None
+        return fold_env(tu, ks[1] if c else ks[2], env)
+    return None
+
+
 def find_nodes(root, pred):
     return [n for n in walk(root) if pred(n)]
 
